@@ -34,6 +34,7 @@ pub fn o_slpp_roundtrip(input: &[u8], p: &P) -> Out {
 		}
 		let a = write_slpp(g1b, p.comp).map_err(|f| e(&format!("slpp-write-failed:{}", f.key()), format!("peppi::write failed: {}", f.describe())))?;
 		// the archive is read back through an environment-owned reader (p.n[1..] = read schedule)
+		slpp_prelude(&a, false);
 		let rd = crate::env::EnvReader::new(&a, crate::inc::sched_of(p));
 		let g2 = read_slpp_from(rd, false).map_err(|f| e(&format!("slpp-read-failed:{}", f.key()), format!("peppi::read of the written archive failed: {}", f.describe())))?;
 		if g2.hash != g1.hash {
